@@ -72,16 +72,19 @@ def run_sequences(chk, name, cases, results, case_fn, site, group=3, limit=30, t
     ok = [c for c, r in zip(cases, results) if r.get("status") == "ok" and c.get("kind") not in ("sequence",)]
     if len(ok) < 2:
         return []
-    rnd = random.Random(1000 + seed)
-    order = list(ok)
-    rnd.shuffle(order)
     seqs = []
-    for i in range(0, len(order) - 1, group):
-        items = order[i:i + group]
-        if len(items) < 2:
-            items = order[-group:]
-        seqs.append(dict(tag="seq/" + "+".join(str(x.get("tag")) for x in items), features=dict(sequence=True), kind="sequence", items=items))
-    seqs = seqs[:limit]
+    rounds = 1 if getattr(chk, "tier", "quick") == "quick" else 3          # thorough: three different shufflings
+    for rd in range(rounds):
+        rnd = random.Random(1000 + seed + 7919 * rd)
+        order = list(ok)
+        rnd.shuffle(order)
+        part = []
+        for i in range(0, len(order) - 1, group):
+            items = order[i:i + group]
+            if len(items) < 2:
+                items = order[-group:]
+            part.append(dict(tag=f"seq{rd}/" + "+".join(str(x.get("tag")) for x in items), features=dict(sequence=True), kind="sequence", items=items))
+        seqs += part[:limit]
     fn_mod, fn_name = case_fn.__module__, case_fn.__name__
 
     return run_family(chk, name, seqs, _SeqFn(case_fn), site,
